@@ -43,6 +43,14 @@ def parseTypes (s : String) : TypesArg :=
   else if s.startsWith "o" then .one (parseCls (s.drop 1).toString)
   else .many (parseClsList (s.drop 1).toString)
 
+/-- strip as passed: `0`/`1` bool, `i<n>` int, `n` None, `s<cps|->` str -/
+def parseStrip (s : String) : PyArg :=
+  if s == "1" then .bool true
+  else if s == "0" then .bool false
+  else if s == "n" then .none
+  else if s.startsWith "i" then .int ((s.drop 1).toString.toInt?.getD 0)
+  else .str (cps (s.drop 1).toString)
+
 def parseInteresting (s : String) : Interesting :=
   if s == "N" then .none
   else if s.startsWith "o" then .one (parseCls (s.drop 1).toString)
@@ -98,10 +106,13 @@ def answer (spec : Bool) (root : Node) (q : String) : String :=
     | some n =>
       match op, args with
       | "A", [s, t] =>
-        showPieces (if spec then specAll (s == "1") (parseTypes t) n else allStringsImpl main (s == "1") (parseTypes t) n)
+        if t.startsWith "i" then showPieces (allStringsIterImpl (parseStrip s).truthy (parseClsList (t.drop 1).toString) n)
+        else showPieces (if spec then specAll (parseStrip s).truthy (parseTypes t) n else allStringsArg main (parseStrip s) (parseTypes t) n)
       | "G", [s, t, sep] =>
-        showP (if spec then joinSpec (cps sep) (specAll (s == "1") (parseTypes t) n)
-               else getTextImpl main (cps sep) (s == "1") (parseTypes t) n)
+        if t.startsWith "i" then
+          showP (joinImpl (cps sep) (allStringsIterImpl (parseStrip s).truthy (parseClsList (t.drop 1).toString) n))
+        else showP (if spec then joinSpec (cps sep) (specAll (parseStrip s).truthy (parseTypes t) n)
+               else getTextImpl main (cps sep) (parseStrip s).truthy (parseTypes t) n)
       | "ST", [] => showPieces (if spec then specAll false .dflt n else stringsImpl main n)
       | "SS", [] => showPieces (if spec then specAll true .dflt n else strippedStringsImpl main n)
       | "TX", [] => showP (if spec then joinSpec [] (specAll false .dflt n) else textImpl main n)
